@@ -41,7 +41,8 @@ BOUND = {
     "0..14 step 2 x 6 force fields",
 }
 PHS = [0.0, 3.5, 7.0, 10.5, 14.0]
-PKAS = [-1.0, 3.5, 7.0, 10.5, 15.0]
+# (6.998 / 7.002: a pKa within rounding distance of a lattice pH)
+PKAS = [-1.0, 3.5, 6.998, 7.0, 7.002, 10.5, 15.0]
 GROUPS = ["ASP", "GLU", "HIS", "CYS", "TYR", "LYS", "ARG", "N+", "C-"]
 PROT_STATE = {"ASP": "ASH", "GLU": "GLH", "HIS": "HIP", "CYS": "CYS",
               "TYR": "TYR", "LYS": "LYS", "ARG": "ARG"}
